@@ -80,6 +80,8 @@ PROPS = {
             "C10_A23_legacy_window_refuted": [],
             "C10_A24_repaired": [],
             "C10_compile_wellformed": [],
+            "C10_from_u32_injective": [],
+            "C10_few_globals": [],
             "C10_compile_wellformed_example": [],
         },
         n_quick=320, n_thorough=4000,
@@ -111,9 +113,9 @@ PROPS = {
             "C10_compile_wellformed (every program the compiler MODEL returns satisfies wellformed_gen false = wellformed at "
             "HEAD) is proved for all modules under executable side conditions that are hypotheses of the theorem: "
             "program_in_range (literals fit i64 / 64 bits), program_utf8 (string literals, native function names and "
-            "ReadVar / SetVar names are valid UTF-8), bytecode < 2^31 bytes, data section < 2^32 bytes, fewer than 2^32 "
-            "globals, and var_handles_collision_free n (Handle::from_u32 injective on the variable ids 0..n-1 in use; "
-            "collisions of Handle::from_str on the variable NAMES need not be excluded)",
+            "ReadVar / SetVar names are valid UTF-8), bytecode < 2^31 bytes, data section < 2^32 bytes; no hypothesis on "
+            "hash collisions (Handle::from_u32 is proved injective below 2^32 - 1, the number of globals is bounded by the "
+            "code size, collisions of Handle::from_str on variable NAMES do not affect the tables' validity)",
             "not proved, not part of wellformed: a local index is below the number of locals its own function has declared at "
             "that point; RegisterUpvalue's index names an existing local / upvalue of the enclosing function (only < 255)",
         ],
